@@ -5,6 +5,7 @@ import (
 	"errors"
 	"log/slog"
 	"net"
+	"slices"
 	"sync/atomic"
 	"time"
 
@@ -106,6 +107,10 @@ func MeasureClockOffsetSCION(ctx context.Context, log *slog.Logger,
 	ntpcs []*SCIONClient, localAddr, remoteAddr udp.UDPAddr, ps []snet.Path) (
 	time.Time, time.Duration, error) {
 	mtrcs := scionMetrics.Load()
+
+	// The list is used as scratch space below; it belongs to the caller, who
+	// may offer it again.
+	ps = slices.Clone(ps)
 
 	sps := make([]snet.Path, len(ntpcs))
 	nsps := 0
